@@ -42,6 +42,7 @@ func runC05(r *an.Run) {
 	// context-line package clause leaves the file's clause unchanged only if the matcher's guard is exact equality
 	c10PackageGuard(r)
 	relabel(r, "R2-package-guard", "R7-package-clause-unchanged-by-context-line")
+	c05FileIdentity(r)
 }
 
 // astWrites lists stores whose destination is a field of a go/ast (or
